@@ -76,6 +76,17 @@ def gen_case(seed, tier="quick"):
         case.update(dom=dom, pspace=[["t", 1]], prow=rows[j], prows_extra=rows[:j] + rows[j + 1:], prow_index=j,
                     M=M, n=r4.choice((2000, 5000)))
         return case
+    if law == "uniform" and 0.15 <= r4.random() < 0.25:
+        # dedicated cell: dependent product whose second factor has two variables, the first factor depending on
+        # one of them only (the acceptance step must still weigh by the measure of A(b))
+        A = {"k": "circ", "var": "x", "c": [GG.q(r4.uniform(-2, 2)), GG.q(r4.uniform(-2, 2))],
+             "r": ["aff", GG.q(r4.uniform(0.1, 0.5)), GG.q(r4.uniform(0.8, 2.0)), "t"]} if r4.random() < 0.6 else \
+            {"k": "iv", "var": "x", "a": GG.q(r4.uniform(-2, 0)), "b": ["aff", GG.q(r4.uniform(0.2, 0.6)), GG.q(r4.uniform(1.0, 3.0)), "t"]}
+        It = {"k": "iv", "var": "t", "a": 0.0, "b": 1.0}
+        Is = {"k": "iv", "var": "s", "a": GG.q(r4.uniform(-1, 0)), "b": GG.q(r4.uniform(0.5, 2.0))}
+        Bn = {"k": "prod", "a": It, "b": Is} if r4.random() < 0.5 else {"k": "prod", "a": Is, "b": It}
+        case.update(dom={"k": "prod", "a": A, "b": Bn}, pspace=[], prow=[], M=M, n=r4.choice((2000, 5000)))
+        return case
     for _ in range(50):
         dom, pspace = geo_cases.gen_domain(r, rng, max_depth=2)
         if _law_defined(dom):
